@@ -24,14 +24,14 @@ for id in "$@"; do
     cat "$d/demo.rs" >> "$tf"
     cargo test -p tree-sitter-cli --offline "$tn" > /tmp/vf-seeded-confirm/with.log 2>&1; rc_with=$?
     echo "with the change:    cargo test $tn -> exit $rc_with  ($(grep -m1 '^test result' /tmp/vf-seeded-confirm/with.log))"
-    grep -m2 "panicked at\|assertion" /tmp/vf-seeded-confirm/with.log | cut -c1-300
+    grep -m3 "panicked at\|assertion\|double free\|signal:\|SIGABRT\|SIGSEGV" /tmp/vf-seeded-confirm/with.log | cut -c1-300
     git apply -R "$d/patch.diff"
     cargo test -p tree-sitter-cli --offline "$tn" > /tmp/vf-seeded-confirm/without.log 2>&1; rc_without=$?
     echo "without the change: cargo test $tn -> exit $rc_without  ($(grep -m1 '^test result' /tmp/vf-seeded-confirm/without.log))"
     git checkout -q -- . && git apply "$d/patch.diff"
     /verif/tools_baseline.sh "$WT" /tmp/vf-seeded-confirm/baseline.log > /tmp/vf-seeded-confirm/base.out 2>&1; rc_base=$?
     echo "repository suite with the change: $(head -1 /tmp/vf-seeded-confirm/base.out) (exit $rc_base)"
-    if [ $rc_with -ne 0 ] && [ $rc_without -eq 0 ] && [ $rc_base -eq 0 ] && grep -q "test result: FAILED" /tmp/vf-seeded-confirm/with.log; then echo "CONFIRMED"; else echo "NOT-CONFIRMED"; fi
+    if [ $rc_with -ne 0 ] && [ $rc_without -eq 0 ] && [ $rc_base -eq 0 ]; then echo "CONFIRMED"; else echo "NOT-CONFIRMED"; fi
   } > "$out" 2>&1
   tail -1 "$out" | sed "s/^/$id: /"
 done
